@@ -17,7 +17,6 @@ import (
 	"os"
 	"path/filepath"
 	"runtime/pprof"
-	"sort"
 	"strings"
 	"sync"
 
@@ -38,6 +37,7 @@ type disagreement struct {
 	applier string
 	dir     string // rejects-valid | accepts-invalid | wrong-output | panic | harness
 	detail  string
+	key     string
 }
 
 type caseResult struct {
@@ -46,34 +46,92 @@ type caseResult struct {
 	dis      []disagreement
 	appliers []string
 	rtFail   string // round-trip failure description ("" = none)
+	rtKey    string
 }
 
-var smallCase = func(cs *dcase, v verdict) bool {
+func smallCase(cs *dcase, v verdict) bool {
 	return len(cs.delta) <= 600 && len(cs.base) <= 4096 && len(v.out) <= 4096
 }
 
-func family(name string) string {
-	if i := strings.IndexByte(name, '['); i >= 0 {
-		fam := name[:i]
-		inner := strings.TrimSuffix(name[i+1:], "]")
-		switch fam {
-		case "Parser":
-			// ref|ofs , mode
-			parts := strings.SplitN(inner, ",", 2)
-			return "Parser[" + parts[1] + "]"
-		case "ReaderFromDelta":
-			return fam
-		case "Packfile":
-			parts := strings.Split(inner, ",")
-			return "Packfile[" + parts[1] + "]"
-		default:
-			return fam
+// classify compares one applier result with the model verdict: "" = agree.
+func classify(v verdict, r res) string {
+	switch {
+	case r.harness != "":
+		return "harness"
+	case r.panicked:
+		return "panic"
+	case v.ok && !r.ok:
+		return "rejects-valid"
+	case !v.ok && r.ok:
+		return "accepts-invalid"
+	case v.ok && r.ok:
+		if r.hashOnly {
+			if r.hash != blobID(v.out) {
+				return "wrong-output"
+			}
+		} else if !bytes.Equal(r.out, v.out) {
+			return "wrong-output"
 		}
 	}
-	return name
+	return ""
 }
 
-func evalCase(c *vf.Ctx, mmDir string, i int, cs *dcase) caseResult {
+func describe(v verdict, r res, dir string) string {
+	switch dir {
+	case "harness":
+		return r.harness
+	case "panic":
+		return r.err + "\n" + r.stack
+	case "rejects-valid":
+		return "error: " + r.err
+	case "accepts-invalid":
+		return fmt.Sprintf("reported success with %d bytes %s although git rejects (%s)", len(r.out), vf.Q(r.out), v.reason)
+	case "wrong-output":
+		if r.hashOnly {
+			return fmt.Sprintf("object id %x, expected %x", r.hash, blobID(v.out))
+		}
+		return fmt.Sprintf("got %d bytes %s, expected %d bytes %s", len(r.out), vf.Q(r.out), len(v.out), vf.Q(v.out))
+	}
+	return ""
+}
+
+// selectAppliers picks which appliers run on case i: everything cheap on small
+// cases, a rotating subset of the pack-embedded ones otherwise.
+func selectAppliers(i int, small bool, outLen int) []applier {
+	var sel []applier
+	sel = append(sel, byGroup("buffer")...)
+	readers := byGroup("reader")
+	if small {
+		sel = append(sel, readers...)
+	} else {
+		sel = append(sel, readers[2]) // bytes, 64 KiB
+		x := readers[i%len(readers)]
+		if strings.HasSuffix(x.name, "buf=1]") && outLen > 20000 {
+			x = readers[(i%4)*3+1]
+		}
+		sel = append(sel, x)
+	}
+	parsers := byGroup("parser") // 12
+	np := 2
+	if small {
+		np = 5
+	}
+	for k := 0; k < np; k++ {
+		sel = append(sel, parsers[(i*5+k*7)%len(parsers)])
+	}
+	pfs := byGroup("packfile") // 8
+	sel = append(sel, pfs[i%8])
+	if small {
+		sel = append(sel, pfs[(i+3)%8], pfs[(i+6)%8])
+	}
+	sel = append(sel, byGroup("update")[i%2])
+	if i%8 == 0 {
+		sel = append(sel, byGroup("mmap")[(i/8)%2])
+	}
+	return sel
+}
+
+func evalCase(mmDir string, i int, cs *dcase) caseResult {
 	var cr caseResult
 	v := gitPatchDelta(cs.base, cs.delta)
 	cr.v = v
@@ -81,96 +139,25 @@ func evalCase(c *vf.Ctx, mmDir string, i int, cs *dcase) caseResult {
 		cr.skipped = true
 		return cr
 	}
-	small := smallCase(cs, v)
+	p := &pcase{base: cs.base, delta: cs.delta, level: cs.level, v: v, mmDir: mmDir}
 	var results []res
-	results = append(results, applyPatchDelta(cs.base, cs.delta), applyApplyDelta(cs.base, cs.delta))
-
-	// streaming applier
-	type rv struct {
-		kind string
-		buf  int
-	}
-	var rvs []rv
-	for _, k := range []string{"bytes", "onebyte", "dataerr", "half"} {
-		for _, b := range []int{1, 7, 65536} {
-			rvs = append(rvs, rv{k, b})
+	for _, a := range selectAppliers(i, smallCase(cs, v), len(v.out)) {
+		r := a.run(p)
+		results = append(results, r)
+		cr.appliers = append(cr.appliers, a.name)
+		dir := classify(v, r)
+		if dir == "" {
+			continue
 		}
-	}
-	if small {
-		for _, x := range rvs {
-			results = append(results, applyReader(cs.base, cs.delta, x.kind, x.buf))
+		d := disagreement{applier: a.name, dir: dir, detail: describe(v, r, dir)}
+		feat := v.reason
+		if v.ok {
+			feat = causalFeatures(p, a, dir)
+		} else if dir == "panic" && len(v.feat) > 0 {
+			feat += "+" + strings.Join(uniqFeat(v.feat), "+")
 		}
-	} else {
-		results = append(results, applyReader(cs.base, cs.delta, "bytes", 65536))
-		x := rvs[i%len(rvs)]
-		if x.buf == 1 && len(v.out) > 20000 {
-			x.buf = 7
-		}
-		results = append(results, applyReader(cs.base, cs.delta, x.kind, x.buf))
-	}
-
-	// pack-embedded appliers
-	packs := map[string]builtPack{
-		"ref": twoObjectPack(cs.base, cs.delta, false, cs.level),
-		"ofs": twoObjectPack(cs.base, cs.delta, true, cs.level),
-	}
-	modes := []string{"seek", "noseek", "seek+mem", "noseek+mem", "seek+fs", "noseek+fs"}
-	for ki, kind := range []string{"ref", "ofs"} {
-		if small {
-			for _, m := range modes {
-				results = append(results, applyParser(packs[kind], kind, m))
-			}
-		} else {
-			results = append(results, applyParser(packs[kind], kind, modes[(i+ki)%len(modes)]))
-			results = append(results, applyParser(packs[kind], kind, modes[(i+ki+3)%len(modes)]))
-		}
-	}
-	pk := 0
-	for _, kind := range []string{"ref", "ofs"} {
-		for _, withFs := range []bool{false, true} {
-			for _, byOff := range []bool{false, true} {
-				if small || pk == i%8 || pk == (i+5)%8 {
-					results = append(results, applyPackfile(packs[kind], cs.base, cs.delta, kind, withFs, byOff))
-				}
-				pk++
-			}
-		}
-	}
-	var want *[20]byte
-	if v.ok {
-		id := blobID(v.out)
-		want = &id
-	}
-	for ki, kind := range []string{"ref", "ofs"} {
-		if small || ki == i%2 {
-			results = append(results, applyUpdateStorage(packs[kind], cs.base, kind, want))
-		}
-	}
-	if i%8 == 0 {
-		kind := []string{"ref", "ofs"}[(i/8)%2]
-		results = append(results, applyMmap(mmDir, packs[kind], cs.base, cs.delta, kind))
-	}
-
-	for _, r := range results {
-		cr.appliers = append(cr.appliers, r.name)
-		switch {
-		case r.harness != "":
-			cr.dis = append(cr.dis, disagreement{r.name, "harness", r.harness})
-		case r.panicked:
-			cr.dis = append(cr.dis, disagreement{r.name, "panic", r.err + "\n" + r.stack})
-		case v.ok && !r.ok:
-			cr.dis = append(cr.dis, disagreement{r.name, "rejects-valid", "error: " + r.err})
-		case !v.ok && r.ok:
-			cr.dis = append(cr.dis, disagreement{r.name, "accepts-invalid", fmt.Sprintf("reported success with %d bytes %s (git: %s)", len(r.out), vf.Q(r.out), v.reason)})
-		case v.ok && r.ok:
-			if r.hashOnly {
-				if r.hash != blobID(v.out) {
-					cr.dis = append(cr.dis, disagreement{r.name, "wrong-output", fmt.Sprintf("object id %x, expected %x", r.hash, blobID(v.out))})
-				}
-			} else if !bytes.Equal(r.out, v.out) {
-				cr.dis = append(cr.dis, disagreement{r.name, "wrong-output", fmt.Sprintf("got %d bytes %s, expected %d bytes %s", len(r.out), vf.Q(r.out), len(v.out), vf.Q(v.out))})
-			}
-		}
+		d.key = family(a.name) + ":" + dir + ":" + feat
+		cr.dis = append(cr.dis, d)
 	}
 	// round-trip clause: go-git's own delta applied to the source gives the target.
 	if cs.hasTgt {
@@ -193,18 +180,11 @@ func featKey(v verdict) string {
 	if !v.ok {
 		return v.reason
 	}
-	if len(v.feat) == 0 {
+	f := uniqFeat(v.feat)
+	if len(f) == 0 {
 		return "plain"
 	}
-	f := append([]string{}, v.feat...)
-	sort.Strings(f)
-	var u []string
-	for i, s := range f {
-		if i == 0 || f[i-1] != s {
-			u = append(u, s)
-		}
-	}
-	return strings.Join(u, "+")
+	return strings.Join(f, "+")
 }
 
 func run(c *vf.Ctx) {
@@ -221,7 +201,7 @@ func run(c *vf.Ctx) {
 	var cases []dcase
 
 	// 1. round-trip pairs
-	nPairs := c.N(1500, 12000)
+	nPairs := c.N(900, 12000)
 	rp := c.Rand("pairs")
 	var diffCases []int
 	for i := 0; i < nPairs; i++ {
@@ -254,7 +234,7 @@ func run(c *vf.Ctx) {
 	}
 	// 2. mutations of go-git's own deltas
 	rm := c.Rand("diffmut")
-	nDiffMut := c.N(3000, 40000)
+	nDiffMut := c.N(1500, 40000)
 	for i := 0; i < nDiffMut && len(diffCases) > 0; i++ {
 		b := cases[diffCases[rm.Intn(len(diffCases))]]
 		if len(b.delta) > 3000 {
@@ -267,7 +247,7 @@ func run(c *vf.Ctx) {
 	}
 	// 3. synthetic structured deltas, plain and mutated
 	rs := c.Rand("synth")
-	nSynth := c.N(9000, 150000)
+	nSynth := c.N(5000, 120000)
 	var truncSeeds []int
 	for i := 0; i < nSynth; i++ {
 		base := pickBase(rs)
@@ -275,7 +255,7 @@ func run(c *vf.Ctx) {
 		mut := "none"
 		if rs.Intn(3) == 0 {
 			d, mut = mutate(rs, d, segs)
-		} else if len(d) <= 48 && len(truncSeeds) < c.N(120, 1500) {
+		} else if len(d) <= 48 && len(truncSeeds) < c.N(60, 1200) {
 			truncSeeds = append(truncSeeds, len(cases))
 		}
 		cases = append(cases, dcase{base: base, delta: d, origin: "synth", level: []int{-1, 0}[i%2], shape: shape + "/mut=" + mut})
@@ -291,7 +271,7 @@ func run(c *vf.Ctx) {
 	}
 	// 5. random bytes behind a correct source size
 	rr := c.Rand("random")
-	for i := 0; i < c.N(1500, 20000); i++ {
+	for i := 0; i < c.N(800, 15000); i++ {
 		base := pickBase(rr)
 		body := make([]byte, rr.Intn(24))
 		rr.Read(body)
@@ -314,7 +294,7 @@ func run(c *vf.Ctx) {
 	mmDir := c.TempDir("mmap")
 	results := make([]caseResult, len(cases))
 	vf.Parallel(len(cases), 8, func(i int) {
-		results[i] = evalCase(c, mmDir, i, &cases[i])
+		results[i] = evalCase(mmDir, i, &cases[i])
 	})
 
 	// accounting and selection of cases for git confirmation
@@ -324,7 +304,9 @@ func run(c *vf.Ctx) {
 	}
 	var confirm []conf
 	perClass := map[string]int{}
-	sampleEvery := 50
+	perKey := map[string]int{}
+	const maxConfirmPerKey = 10
+	sampleEvery := 40
 	for i := range cases {
 		cs, cr := &cases[i], &results[i]
 		if cr.skipped {
@@ -350,7 +332,27 @@ func run(c *vf.Ctx) {
 		perClass[cls]++
 		switch {
 		case len(cr.dis) > 0 || cr.rtFail != "":
-			confirm = append(confirm, conf{i, false})
+			// every finding key is confirmed by git on its first maxConfirmPerKey witnesses; only
+			// git-confirmed witnesses are reported, the others are counted.
+			need := false
+			if cr.rtFail != "" {
+				cr.rtKey = "roundtrip:" + strings.SplitN(cs.shape, "/", 3)[1]
+				if perKey[cr.rtKey] < maxConfirmPerKey {
+					need = true
+				}
+				perKey[cr.rtKey]++
+			}
+			for _, d := range cr.dis {
+				if perKey[d.key] < maxConfirmPerKey {
+					need = true
+				}
+				perKey[d.key]++
+			}
+			if need {
+				confirm = append(confirm, conf{i, false})
+			} else {
+				c.Count("disagreements_of_already_confirmed_keys_not_resubmitted_to_git", 1)
+			}
 		case i%sampleEvery == 0 || perClass[cls] <= 2:
 			confirm = append(confirm, conf{i, true})
 		}
@@ -403,8 +405,7 @@ func run(c *vf.Ctx) {
 		replay := map[string]any{"base_hex": fmt.Sprintf("%x", capBytes(cs.base)), "base_len": len(cs.base), "delta_hex": fmt.Sprintf("%x", capBytes(cs.delta)),
 			"origin": cs.origin, "shape": cs.shape, "git": map[string]any{"ok": cr.v.ok, "reason": cr.v.reason, "out_len": len(cr.v.out)}}
 		if cr.rtFail != "" {
-			key := "roundtrip:" + strings.SplitN(cs.shape, "/", 3)[1]
-			c.Fail(key, cr.rtFail+fmt.Sprintf(" [src %d bytes, delta %s]", len(cs.base), vf.Hex(cs.delta)), replay)
+			c.Fail(cr.rtKey, cr.rtFail+fmt.Sprintf(" [src %d bytes, delta %s]", len(cs.base), vf.Hex(cs.delta)), replay)
 		}
 		seen := map[string]bool{}
 		for _, d := range cr.dis {
@@ -412,23 +413,22 @@ func run(c *vf.Ctx) {
 				c.Broken("harness failure in %s: %s", d.applier, d.detail)
 				continue
 			}
-			key := family(d.applier) + ":" + d.dir + ":" + featKey(cr.v)
-			if seen[key] {
+			if seen[d.key] {
 				continue
 			}
-			seen[key] = true
+			seen[d.key] = true
 			c.Count("disagreements_confirmed_by_git", 1)
-			c.Fail(key, fmt.Sprintf("%s on base of %d bytes, delta %s (%s): %s; git (index-pack, confirmed): ok=%v %s", d.applier, len(cs.base), vf.Hex(cs.delta), cs.shape, d.detail, cr.v.ok, cr.v.reason), replay)
+			c.Fail(d.key, fmt.Sprintf("%s on base of %d bytes, delta %s (%s): %s; git (index-pack, confirmed): ok=%v %s", d.applier, len(cs.base), vf.Hex(cs.delta), cs.shape, d.detail, cr.v.ok, cr.v.reason), replay)
 		}
 	}
 
-	c.Floor("cases evaluated", c.Counter("model_accepts")+c.Counter("model_rejects"), c.N(15000, 150000))
-	c.Floor("cases git accepts", c.Counter("model_accepts"), c.N(3000, 30000))
+	c.Floor("cases evaluated", c.Counter("model_accepts")+c.Counter("model_rejects"), c.N(8000, 150000))
+	c.Floor("cases git accepts", c.Counter("model_accepts"), c.N(2000, 30000))
 	c.Floor("cases git rejects", c.Counter("model_rejects"), c.N(3000, 30000))
-	c.Floor("applier runs", c.Counter("applier_runs"), c.N(200000, 2000000))
-	c.Floor("distinct appliers/variants driven", c.SeenCount("appliers"), 35)
+	c.Floor("applier runs", c.Counter("applier_runs"), c.N(100000, 1500000))
+	c.Floor("distinct appliers/variants driven", c.SeenCount("appliers"), 38)
 	c.Floor("distinct model reject reasons exercised", c.SeenCount("reject_reasons"), 10)
-	c.Floor("git confirmations", c.Counter("git_confirmations"), c.N(300, 3000))
+	c.Floor("git confirmations", c.Counter("git_confirmations"), c.N(250, 3000))
 	c.Assume("git 2.39.5 index-pack/patch-delta.c is the reference; the delta format has not changed since")
 	c.Assume("deltas whose size headers need a shift >= 64 in get_delta_hdr_size (C undefined behaviour) or whose declared target exceeds 256 MiB are outside the domain")
 	c.Assume("base and target objects are blobs; pack entries are zlib streams whose inflated size equals the entry header (pack-level malformations belong to C07/C09)")
@@ -479,6 +479,23 @@ func gitApply(g *gitx.Git, repo string, base, delta []byte, v verdict) (ok bool,
 			id = bid
 		}
 	}
+	if v.ok && len(v.out) == 0 {
+		// git cannot read back a deltified object of size 0 (packed_object_info treats a delta result size of 0 as
+		// an error) although index-pack/patch_delta resolved it; take the id index-pack computed from show-index.
+		m, _ := filepath.Glob(filepath.Join(repo, "objects", "pack", "*.idx"))
+		if len(m) != 1 {
+			return false, nil, "", "no idx after index-pack"
+		}
+		ib, _ := os.ReadFile(m[0])
+		si := g.RunIn(repo, ib, "show-index")
+		if si.Code != 0 {
+			return false, nil, "", "show-index: " + si.String()
+		}
+		if strings.Contains(string(si.Out), " "+id+" ") {
+			return true, []byte{}, "index-pack ok (empty result, id seen in show-index)", ""
+		}
+		return true, []byte("\x00<empty blob id not in idx>"), "index-pack ok, show-index: " + string(si.Out), ""
+	}
 	cf := g.Run(repo, "cat-file", "blob", id)
 	if cf.Timeout || cf.Code == -1 {
 		return false, nil, "", "cat-file: " + cf.String()
@@ -497,14 +514,14 @@ func debugOne(c *vf.Ctx, g *gitx.Git, one string) {
 	base, _ := hex.DecodeString(parts[0])
 	delta, _ := hex.DecodeString(parts[1])
 	cs := dcase{base: base, delta: delta, level: -1, shape: "debug"}
-	cr := evalCase(c, c.TempDir("mm"), 0, &cs)
+	cr := evalCase(c.TempDir("mm"), 0, &cs)
 	fmt.Printf("model: ok=%v reason=%q feat=%v undefined=%v out=%s\n", cr.v.ok, cr.v.reason, cr.v.feat, cr.v.undefined, vf.Q(cr.v.out))
 	repo := filepath.Join(c.Scratch, "dbgrepo")
 	g.Init(repo, true, "sha1")
 	ok, out, raw, inc := gitApply(g, repo, base, delta, cr.v)
 	fmt.Printf("git: ok=%v out=%s raw=%q inconclusive=%q\n", ok, vf.Q(out), raw, inc)
 	for _, d := range cr.dis {
-		fmt.Printf("DISAGREE %s %s %s\n", d.applier, d.dir, strings.SplitN(d.detail, "\n", 2)[0])
+		fmt.Printf("DISAGREE key=%s %s %s\n", d.key, d.applier, strings.SplitN(d.detail, "\n", 2)[0])
 	}
 	fmt.Printf("appliers run: %d\n", len(cr.appliers))
 }
